@@ -53,6 +53,7 @@ def required_cells(tier):
     req = {"layout:" + k: 3 for k in LAYOUTS}
     req.update({"group:" + g: 2 for g in GROUPS})
     req.update({"alias": 6, "history": 6, "history:control-on-two-grids": 3,
+                "history:getters-read-in-between": 3,
                 "attr:alpha": 1,
                 "attr:temperature": 1, "attr:cutoff": 1, "attr:zeta": 1,
                 "attr:cutoff_type": 1, "attr:j_function": 1,
@@ -579,12 +580,46 @@ def run_history(case):
                                                    shape="square")
                          for k in range(1, 4)]
                         + [c.correlation(0.3)])
-    ops = {"tempo": op_tempo, "dyn": op_dyn, "corr": op_corr,
+    def op_peek(ob, pt):
+        """Read every array-valued attribute / getter of the shared objects
+        (reads must be free of side effects; the arrays are not written to:
+        several getters of the pinned tree hand out their own storage and the
+        property does not promise copies)."""
+        b, sm = ob["bath"], ob["sysm"]
+        for obj, names in ((b, ("coupling_operator", "unitary_transform",
+                                "north_degeneracy_map",
+                                "west_degeneracy_map", "correlations")),
+                           (sm, ("hamiltonian", "gammas",
+                                 "lindblad_operators", "dimension")),
+                           (pt, ("transform_in", "transform_out", "dt",
+                                 "max_step", "hilbert_space_dimension"))):
+            for nm in names:
+                try:
+                    getattr(obj, nm)
+                except AttributeError:
+                    pass
+        sm.liouvillian()
+        pt.get_bond_dimensions()
+        for k in range(len(pt)):
+            pt.get_mpo_tensor(k)
+            pt.get_mpo_tensor(k, transformed=False)
+        for k in range(len(pt) + 1):
+            pt.get_cap_tensor(k)
+        for st in range(0, 4):
+            ob["control"].get_controls(st, dt=dt, start_time=0.0)
+            ob["control"].get_controls(st, dt=0.05, start_time=0.1)
+        str(b), str(sm), str(pt), str(ob["params"])
+        return np.zeros(1)
+
+    ops = {"peek": op_peek, "tempo": op_tempo, "dyn": op_dyn, "corr": op_corr,
            "grad": op_grad, "tebd": op_tebd, "pt": op_pt, "eta": op_eta,
            "ctl": op_ctl, "ctl_shift": op_ctl_shift, "ctl_dt": op_ctl_dt}
     names = list(ops)
     seq = [names[int(x)] for x in rng.integers(0, len(names),
                                                size=int(rng.integers(4, 8)))]
+    if i % 2 == 1:
+        seq[0] = "peek"
+        seq[len(seq) // 2] = "peek"
     if i % 2 == 0:
         # make sure the shared Control meets at least two different grids
         ctl = ["ctl", "ctl_shift", "ctl_dt"]
@@ -619,6 +654,8 @@ def run_history(case):
                 "mechanism": "stale-state", "detail": {"seq": seq}})
             break
     cells = ["history"]
+    if "peek" in seq[:-1]:
+        cells.append("history:getters-read-in-between")
     if len({x for x in seq if x.startswith("ctl")}) >= 2:
         cells.append("history:control-on-two-grids")
     return {"violations": violations, "cells": cells,
